@@ -1,6 +1,2121 @@
-//! C01 — monitor not built yet.
-use crate::core::Ctx;
+//! C01 — message round trip: what the builder emits, the reader returns unchanged.
+//!
+//! Deciding oracle (public API boundary): `MessageBuilder` output is parsed by
+//! `Message::from_bytes` / `from_armor`, decrypted through every recipient / password / the
+//! session key, decompressed, drained with a consumer pattern; bytes, literal header and every
+//! embedded signature are compared with what was requested. Independent cross-check: the emitted
+//! packets are deframed by `rfc::frame`, the SEIPD container is opened by `rfc::sym`
+//! (never calling `pgp`), compressed layers by flate2, and the literal body must equal the payload.
+//! Hooks give conservation invariants and state coverage.
+
+use std::collections::BTreeMap;
+use std::io::Read;
+use std::path::PathBuf;
+
+use pgp::composed::{
+    ArmorOptions, DecryptionOptions, Encryption, Message, MessageBuilder, NoEncryption,
+    PlainSessionKey, SignedPublicKey, SignedSecretKey, TheRing, VerificationResult,
+};
+use pgp::crypto::aead::{AeadAlgorithm, ChunkSize};
+use pgp::crypto::hash::HashAlgorithm;
+use pgp::crypto::sym::SymmetricKeyAlgorithm;
+use pgp::composed::SubpacketConfig;
+use pgp::packet::{DataMode, Subpacket, SubpacketData};
+use pgp::types::{CompressionAlgorithm, KeyDetails, Password, Seipdv1ReadMode, StringToKey, Timestamp};
+use rand::{Rng, RngCore, SeedableRng};
+use rand_chacha::ChaCha8Rng;
+use serde_json::{json, Value};
+
+use crate::core::{describe_case, hexs, Ctx};
+use crate::hooks::{self, Ev};
+use crate::rfc;
+use crate::shim::{drain, Consume, Sched, SchedReader, SchedWriter};
+use crate::zoo::{self, Alg, Spec};
+
+// ------------------------------------------------------------------------------------------
+// configuration space
+
+const D_SRC: usize = 0;
+const D_MODE: usize = 1;
+const D_NAME: usize = 2;
+const D_COMP: usize = 3;
+const D_CHUNK: usize = 4;
+const D_NSIGN: usize = 5;
+const D_SKEY: usize = 6;
+const D_STYP: usize = 7;
+const D_HASH: usize = 8;
+const D_ENC: usize = 9;
+const D_AEADCS: usize = 10;
+const D_NPW: usize = 11;
+const D_S2K: usize = 12;
+const D_NKEY: usize = 13;
+const D_PKALG: usize = 14;
+const D_ANON: usize = 15;
+const D_ARMOR: usize = 16;
+const D_CONS: usize = 17;
+const D_SINK: usize = 18;
+const D_SK: usize = 19;
+const D_DATA: usize = 20;
+const D_V1MODE: usize = 21;
+const ND: usize = 22;
+
+type Cfg = [u8; ND];
+
+const DIM_NAMES: [&str; ND] = [
+    "src", "mode", "name", "comp", "chunk", "nsign", "skey", "styp", "hash", "enc", "aeadcs", "npw",
+    "s2k", "nkey", "pkalg", "anon", "armor", "cons", "sink", "sk", "data", "v1mode",
+];
+
+const SRC_NAMES: [&str; 7] = ["bytes", "file", "rd-all", "rd-1", "rd-cycle", "rd-rand700", "rd-rand9000"];
+const COMP_NAMES: [&str; 5] = ["none", "uncompressed", "zip", "zlib", "bzip2"];
+const CHUNKS: [u32; 8] = [0, 512, 1024, 2048, 4096, 8192, 65536, 1 << 20]; // 0 = builder default
+const HASHES: [(HashAlgorithm, usize, &str); 6] = [
+    (HashAlgorithm::Sha256, 32, "sha256"),
+    (HashAlgorithm::Sha384, 48, "sha384"),
+    (HashAlgorithm::Sha512, 64, "sha512"),
+    (HashAlgorithm::Sha3_256, 32, "sha3-256"),
+    (HashAlgorithm::Sha3_512, 64, "sha3-512"),
+    (HashAlgorithm::Sha224, 28, "sha224"),
+];
+const V1_CIPHERS: [SymmetricKeyAlgorithm; 11] = [
+    SymmetricKeyAlgorithm::IDEA,
+    SymmetricKeyAlgorithm::TripleDES,
+    SymmetricKeyAlgorithm::CAST5,
+    SymmetricKeyAlgorithm::Blowfish,
+    SymmetricKeyAlgorithm::AES128,
+    SymmetricKeyAlgorithm::AES192,
+    SymmetricKeyAlgorithm::AES256,
+    SymmetricKeyAlgorithm::Twofish,
+    SymmetricKeyAlgorithm::Camellia128,
+    SymmetricKeyAlgorithm::Camellia192,
+    SymmetricKeyAlgorithm::Camellia256,
+];
+const V2_AEADS: [AeadAlgorithm; 3] = [AeadAlgorithm::Eax, AeadAlgorithm::Ocb, AeadAlgorithm::Gcm];
+const V2_SYMS: [SymmetricKeyAlgorithm; 3] = [
+    SymmetricKeyAlgorithm::AES128,
+    SymmetricKeyAlgorithm::AES192,
+    SymmetricKeyAlgorithm::AES256,
+];
+const CONS_NAMES: [&str; 10] = [
+    "as_data_vec", "ToEnd", "Read1", "Read7", "Read4096", "ReadCycle", "Buf1", "Buf5", "BufAll", "Mixed3",
+];
+
+#[derive(Clone, Copy, Debug, PartialEq, Eq)]
+enum Enc {
+    None,
+    V1(SymmetricKeyAlgorithm),
+    V2(SymmetricKeyAlgorithm, AeadAlgorithm),
+}
+
+fn enc_of(v: u8) -> Enc {
+    match v {
+        0 => Enc::None,
+        1..=11 => Enc::V1(V1_CIPHERS[v as usize - 1]),
+        _ => {
+            let i = v as usize - 12;
+            Enc::V2(V2_SYMS[i % 3], V2_AEADS[i / 3])
+        }
+    }
+}
+
+fn enc_name(v: u8) -> String {
+    match enc_of(v) {
+        Enc::None => "none".into(),
+        Enc::V1(a) => format!("v1-{a:?}"),
+        Enc::V2(a, m) => format!("v2-{m:?}-{a:?}"),
+    }
+}
+
+/// Sizes of the dimensions (number of values, value 0 is "n/a" for dependent dimensions)
+struct Space {
+    card: [u8; ND],
+    /// per signer-spec value (1-based): minimum digest length accepted by the library for that key
+    signer_min_digest: Vec<usize>,
+    offs: [usize; ND],
+    total_vals: usize,
+}
+
+impl Space {
+    fn new(quick: bool, nsigners: usize, nrecips: usize, signer_min_digest: Vec<usize>) -> Self {
+        let mut card = [0u8; ND];
+        card[D_SRC] = 7;
+        card[D_MODE] = 2;
+        card[D_NAME] = 3;
+        card[D_COMP] = 5;
+        card[D_CHUNK] = if quick { 5 } else { 8 };
+        card[D_NSIGN] = 4;
+        card[D_SKEY] = 1 + nsigners as u8;
+        card[D_STYP] = 3;
+        card[D_HASH] = 1 + HASHES.len() as u8;
+        card[D_ENC] = 21;
+        card[D_AEADCS] = 1 + if quick { 11 } else { 17 };
+        card[D_NPW] = 3;
+        card[D_S2K] = 4;
+        card[D_NKEY] = 3;
+        card[D_PKALG] = 1 + nrecips as u8;
+        card[D_ANON] = 3;
+        card[D_ARMOR] = 4;
+        card[D_CONS] = 10;
+        card[D_SINK] = 3;
+        card[D_SK] = 3;
+        card[D_DATA] = 3;
+        card[D_V1MODE] = 3;
+        let mut offs = [0usize; ND];
+        let mut t = 0;
+        for d in 0..ND {
+            offs[d] = t;
+            t += card[d] as usize;
+        }
+        Space { card, signer_min_digest, offs, total_vals: t }
+    }
+
+    /// which dimensions may carry the n/a value 0 (all others start at 0 as a real value)
+    fn na_dim(d: usize) -> bool {
+        matches!(d, D_SKEY | D_STYP | D_HASH | D_AEADCS | D_S2K | D_PKALG | D_ANON | D_SK | D_V1MODE)
+    }
+
+    /// is the dimension relevant under the controllers of this config?
+    fn relevant(c: &Cfg, d: usize) -> bool {
+        let enc = enc_of(c[D_ENC]);
+        match d {
+            D_SKEY | D_STYP | D_HASH => c[D_NSIGN] > 0,
+            D_AEADCS => matches!(enc, Enc::V2(..)),
+            D_V1MODE => matches!(enc, Enc::V1(..)),
+            D_SK => enc != Enc::None,
+            D_S2K => enc != Enc::None && c[D_NPW] > 0,
+            D_PKALG | D_ANON => enc != Enc::None && c[D_NKEY] > 0,
+            _ => true,
+        }
+    }
+
+    fn valid(&self, c: &Cfg) -> bool {
+        for d in 0..ND {
+            if c[d] >= self.card[d] {
+                return false;
+            }
+            if Self::na_dim(d) {
+                let rel = Self::relevant(c, d);
+                if rel != (c[d] != 0) {
+                    return false;
+                }
+            }
+        }
+        if enc_of(c[D_ENC]) == Enc::None && (c[D_NPW] != 0 || c[D_NKEY] != 0) {
+            return false;
+        }
+        if c[D_NSIGN] > 0 {
+            let need = self.signer_min_digest[c[D_SKEY] as usize - 1];
+            if HASHES[c[D_HASH] as usize - 1].1 < need {
+                return false;
+            }
+        }
+        true
+    }
+
+    /// random valid config honouring `fixed`; None if the fixed values cannot be completed
+    fn random(&self, rng: &mut ChaCha8Rng, fixed: &[(usize, u8)]) -> Option<Cfg> {
+        'outer: for _ in 0..60 {
+            let mut c = [0u8; ND];
+            let mut is_fixed = [false; ND];
+            for d in 0..ND {
+                c[d] = rng.gen_range(0..self.card[d]);
+            }
+            for (d, v) in fixed {
+                c[*d] = *v;
+                is_fixed[*d] = true;
+            }
+            if enc_of(c[D_ENC]) == Enc::None {
+                for d in [D_NPW, D_NKEY] {
+                    if c[d] != 0 {
+                        if is_fixed[d] {
+                            continue 'outer;
+                        }
+                        c[d] = 0;
+                    }
+                }
+            }
+            for d in 0..ND {
+                if !Self::na_dim(d) {
+                    continue;
+                }
+                let rel = Self::relevant(&c, d);
+                if !rel && c[d] != 0 {
+                    if is_fixed[d] {
+                        continue 'outer;
+                    }
+                    c[d] = 0;
+                } else if rel && c[d] == 0 {
+                    if is_fixed[d] {
+                        continue 'outer;
+                    }
+                    c[d] = rng.gen_range(1..self.card[d]);
+                }
+            }
+            if c[D_NSIGN] > 0 {
+                let need = self.signer_min_digest[c[D_SKEY] as usize - 1];
+                if HASHES[c[D_HASH] as usize - 1].1 < need {
+                    if !is_fixed[D_HASH] {
+                        // pick a compatible hash
+                        let ok: Vec<u8> = (1..=HASHES.len() as u8).filter(|h| HASHES[*h as usize - 1].1 >= need).collect();
+                        c[D_HASH] = ok[rng.gen_range(0..ok.len())];
+                    } else if !is_fixed[D_SKEY] {
+                        let hl = HASHES[c[D_HASH] as usize - 1].1;
+                        let ok: Vec<u8> = (1..self.card[D_SKEY]).filter(|k| self.signer_min_digest[*k as usize - 1] <= hl).collect();
+                        c[D_SKEY] = ok[rng.gen_range(0..ok.len())];
+                    } else {
+                        continue 'outer;
+                    }
+                }
+            }
+            if self.valid(&c) {
+                return Some(c);
+            }
+        }
+        None
+    }
+
+    fn pair_index(&self, d1: usize, v1: u8, d2: usize, v2: u8) -> usize {
+        debug_assert!(d1 < d2);
+        (self.offs[d1] + v1 as usize) * self.total_vals + self.offs[d2] + v2 as usize
+    }
+}
+
+/// Pair bookkeeping: which (dim,value)x(dim,value) pairs are feasible / covered
+struct Pairs {
+    feasible: Vec<bool>,
+    covered: Vec<bool>,
+    nfeasible: usize,
+    ncovered: usize,
+}
+
+impl Pairs {
+    fn new(sp: &Space, rng: &mut ChaCha8Rng) -> Self {
+        let n = sp.total_vals * sp.total_vals;
+        let mut feasible = vec![false; n];
+        let mut nfeasible = 0;
+        for d1 in 0..ND {
+            for d2 in d1 + 1..ND {
+                for v1 in 0..sp.card[d1] {
+                    for v2 in 0..sp.card[d2] {
+                        if sp.random(rng, &[(d1, v1), (d2, v2)]).is_some() {
+                            feasible[sp.pair_index(d1, v1, d2, v2)] = true;
+                            nfeasible += 1;
+                        }
+                    }
+                }
+            }
+        }
+        Pairs { feasible, covered: vec![false; n], nfeasible, ncovered: 0 }
+    }
+
+    fn gain(&self, sp: &Space, c: &Cfg) -> usize {
+        let mut g = 0;
+        for d1 in 0..ND {
+            for d2 in d1 + 1..ND {
+                let i = sp.pair_index(d1, c[d1], d2, c[d2]);
+                if !self.covered[i] {
+                    g += 1;
+                }
+            }
+        }
+        g
+    }
+
+    /// marks the pairs of `c`; returns how many were new
+    fn mark(&mut self, sp: &Space, c: &Cfg) -> usize {
+        let mut g = 0;
+        for d1 in 0..ND {
+            for d2 in d1 + 1..ND {
+                let i = sp.pair_index(d1, c[d1], d2, c[d2]);
+                if !self.covered[i] {
+                    self.covered[i] = true;
+                    if self.feasible[i] {
+                        g += 1;
+                    } else {
+                        // a pair the feasibility sampling missed: count it as feasible now
+                        self.feasible[i] = true;
+                        self.nfeasible += 1;
+                        g += 1;
+                    }
+                }
+            }
+        }
+        self.ncovered += g;
+        g
+    }
+}
+
+/// Greedy (AETG style) pairwise covering array
+fn covering_array(sp: &Space, pairs: &Pairs, rng: &mut ChaCha8Rng) -> Vec<Cfg> {
+    let mut work = Pairs {
+        feasible: pairs.feasible.clone(),
+        covered: vec![false; pairs.covered.len()],
+        nfeasible: pairs.nfeasible,
+        ncovered: 0,
+    };
+    let mut rows = vec![];
+    // list of feasible pairs in a fixed order
+    let mut todo: Vec<(usize, u8, usize, u8)> = vec![];
+    for d1 in 0..ND {
+        for d2 in d1 + 1..ND {
+            for v1 in 0..sp.card[d1] {
+                for v2 in 0..sp.card[d2] {
+                    if work.feasible[sp.pair_index(d1, v1, d2, v2)] {
+                        todo.push((d1, v1, d2, v2));
+                    }
+                }
+            }
+        }
+    }
+    // larger domains first: they dominate the row count
+    todo.sort_by_key(|(d1, _, d2, _)| std::cmp::Reverse(sp.card[*d1] as usize * sp.card[*d2] as usize));
+    let mut pos = 0;
+    while pos < todo.len() {
+        let (d1, v1, d2, v2) = todo[pos];
+        if work.covered[sp.pair_index(d1, v1, d2, v2)] {
+            pos += 1;
+            continue;
+        }
+        let mut best: Option<(usize, Cfg)> = None;
+        for _ in 0..24 {
+            if let Some(c) = sp.random(rng, &[(d1, v1), (d2, v2)]) {
+                let g = work.gain(sp, &c);
+                if best.as_ref().map_or(true, |b| g > b.0) {
+                    best = Some((g, c));
+                }
+            }
+        }
+        match best {
+            Some((_, c)) => {
+                work.mark(sp, &c);
+                rows.push(c);
+            }
+            None => {
+                // could not be completed this time: treat as covered to guarantee progress
+                let i = sp.pair_index(d1, v1, d2, v2);
+                work.covered[i] = true;
+            }
+        }
+        pos += 1;
+    }
+    rows
+}
+
+// ------------------------------------------------------------------------------------------
+// keys
+
+struct SignerK {
+    name: String,
+    slow: bool,
+    min_digest: usize,
+    sk: SignedSecretKey,
+    pk: SignedPublicKey,
+    /// public key of a different key (same algorithm family where one is available cheaply)
+    other: SignedPublicKey,
+}
+
+struct RecipK {
+    name: String,
+    slow: bool,
+    sk: SignedSecretKey,
+    /// encrypt to the primary key (RSA with encryption capability) instead of subkey 0
+    primary: bool,
+}
+
+struct Env {
+    signers: Vec<SignerK>,
+    recips: Vec<RecipK>,
+    tmp: PathBuf,
+}
+
+fn min_digest(a: &Alg) -> usize {
+    match a {
+        Alg::Ed25519Legacy | Alg::Ed25519 | Alg::EcdsaP256 | Alg::EcdsaK256 => 32,
+        Alg::EcdsaP384 => 48,
+        Alg::EcdsaP521 | Alg::Ed448 => 64,
+        _ => 0,
+    }
+}
+
+impl Env {
+    fn new(ctx: &Ctx) -> Self {
+        let mut signers = vec![];
+        let rsa_alt4 = zoo::key(&Spec::simple(false, Alg::Rsa2048, Some(Alg::Rsa2048)), 0);
+        let rsa_alt6 = zoo::key(&Spec::simple(true, Alg::Rsa2048, Some(Alg::Rsa2048)), 0);
+        let ed_alt = zoo::key(&Spec::simple(false, Alg::Ed25519Legacy, None), 1);
+        for spec in zoo::signer_specs(true) {
+            let sk = zoo::key(&spec, 0);
+            let pk = sk.to_public_key();
+            let other = if spec.primary == Alg::Rsa2048 {
+                if spec.v6 { rsa_alt6.to_public_key() } else { rsa_alt4.to_public_key() }
+            } else if spec.primary.is_slow() {
+                ed_alt.to_public_key()
+            } else {
+                zoo::key(&spec, 1).to_public_key()
+            };
+            signers.push(SignerK {
+                name: format!("{}-{:?}", if spec.v6 { "v6" } else { "v4" }, spec.primary),
+                slow: spec.primary.is_slow(),
+                min_digest: min_digest(&spec.primary),
+                sk,
+                pk,
+                other,
+            });
+        }
+        let mut recips = vec![];
+        for spec in zoo::encryptor_specs(true) {
+            let sk = if spec.primary == Alg::Rsa2048 {
+                if spec.v6 { rsa_alt6.clone() } else { rsa_alt4.clone() }
+            } else {
+                zoo::key(&spec, 0)
+            };
+            recips.push(RecipK {
+                name: format!("{}-{:?}", if spec.v6 { "v6" } else { "v4" }, spec.enc_sub.as_ref().unwrap()),
+                slow: spec.enc_sub.as_ref().is_some_and(|a| a.is_slow()),
+                sk,
+                primary: false,
+            });
+        }
+        // RSA primary key with encryption capability (v4)
+        recips.push(RecipK {
+            name: "v4-Rsa2048-primary".into(),
+            slow: true,
+            sk: zoo::key(&Spec::simple(false, Alg::Rsa2048, None), 0),
+            primary: true,
+        });
+        // temp dir below <verif>/target/tmp
+        let base = std::env::current_exe()
+            .ok()
+            .and_then(|p| p.ancestors().nth(3).map(|a| a.to_path_buf()))
+            .filter(|p| p.file_name().is_some_and(|n| n == "target"))
+            .unwrap_or_else(|| PathBuf::from("/verif/target"));
+        let tmp = base.join("tmp").join(format!("c01-{}-{}", std::process::id(), ctx.shard));
+        let _ = std::fs::create_dir_all(&tmp);
+        Env { signers, recips, tmp }
+    }
+}
+
+// ------------------------------------------------------------------------------------------
+// plan: a decoded configuration plus the per-case random draws
+
+#[derive(Clone, Debug)]
+struct Plan {
+    cfg: Cfg,
+    sched: Option<Sched>,
+    utf8: bool,
+    name: Vec<u8>,
+    comp: Option<CompressionAlgorithm>,
+    chunk: Option<u32>,
+    signers: Vec<usize>,
+    sign_text: bool,
+    hash: HashAlgorithm,
+    enc: Enc,
+    chunk_size: ChunkSize,
+    pws: Vec<(String, u8)>,
+    keys: Vec<(usize, bool)>,
+    armor: u8,
+    cons: u8,
+    sink: u8,
+    set_sk: bool,
+    streaming: bool,
+    seed: u64,
+}
+
+fn consumer(i: u8) -> Option<Consume> {
+    Some(match i {
+        0 => return None,
+        1 => Consume::ToEnd,
+        2 => Consume::Read(1),
+        3 => Consume::Read(7),
+        4 => Consume::Read(4096),
+        5 => Consume::ReadCycle(vec![1, 13, 512, 3, 8191, 8192]),
+        6 => Consume::Buf(1),
+        7 => Consume::Buf(5),
+        8 => Consume::BufAll,
+        _ => Consume::Mixed(3),
+    })
+}
+
+fn make_plan(env: &Env, c: &Cfg, rng: &mut ChaCha8Rng) -> Plan {
+    let seed: u64 = rng.gen();
+    let sched = match c[D_SRC] {
+        0 | 1 => None,
+        2 => Some(Sched::All),
+        3 => Some(Sched::Fixed(1)),
+        4 => Some(Sched::Cycle(vec![511, 1, 2, 4096, 3])),
+        5 => Some(Sched::Random(seed, 700)),
+        _ => Some(Sched::Random(seed, 9000)),
+    };
+    let name: Vec<u8> = match c[D_NAME] {
+        0 => {
+            if c[D_SRC] == 1 {
+                b"c01-input.bin".to_vec()
+            } else {
+                vec![]
+            }
+        }
+        1 => b"n".to_vec(),
+        _ => (0..255).map(|i| b'a' + (i % 26) as u8).collect(),
+    };
+    let comp = match c[D_COMP] {
+        0 => None,
+        1 => Some(CompressionAlgorithm::Uncompressed),
+        2 => Some(CompressionAlgorithm::ZIP),
+        3 => Some(CompressionAlgorithm::ZLIB),
+        _ => Some(CompressionAlgorithm::BZip2),
+    };
+    let chunk = match CHUNKS[c[D_CHUNK] as usize] {
+        0 => None,
+        v => Some(v),
+    };
+    let mut signers = vec![];
+    let mut hash = HashAlgorithm::Sha256;
+    if c[D_NSIGN] > 0 {
+        let (h, hl, _) = HASHES[c[D_HASH] as usize - 1];
+        hash = h;
+        signers.push(c[D_SKEY] as usize - 1);
+        // further signers: fast keys compatible with the hash, all distinct
+        let pool: Vec<usize> = (0..env.signers.len())
+            .filter(|i| !env.signers[*i].slow && env.signers[*i].min_digest <= hl && *i != signers[0])
+            .collect();
+        while signers.len() < c[D_NSIGN] as usize && !pool.is_empty() {
+            let k = pool[rng.gen_range(0..pool.len())];
+            if !signers.contains(&k) {
+                signers.push(k);
+            }
+        }
+    }
+    let enc = enc_of(c[D_ENC]);
+    let chunk_size = if c[D_AEADCS] > 0 {
+        ChunkSize::try_from(c[D_AEADCS] - 1).expect("chunk size")
+    } else {
+        ChunkSize::default()
+    };
+    let mut pws = vec![];
+    for i in 0..c[D_NPW] {
+        // first password uses the S2K of the dimension, the second one another kind
+        let kind = if i == 0 { c[D_S2K] } else { 1 + (c[D_S2K] + i) % 3 };
+        pws.push((format!("pw-{}-{}", i, rng.gen::<u32>()), kind));
+    }
+    let mut keys = vec![];
+    if c[D_NKEY] > 0 {
+        keys.push((c[D_PKALG] as usize - 1, c[D_ANON] == 2));
+        let pool: Vec<usize> = (0..env.recips.len()).filter(|i| !env.recips[*i].slow && *i != keys[0].0).collect();
+        while keys.len() < c[D_NKEY] as usize {
+            let k = pool[rng.gen_range(0..pool.len())];
+            if !keys.iter().any(|(j, _)| *j == k) {
+                keys.push((k, rng.gen_bool(0.3)));
+            }
+        }
+    }
+    Plan {
+        cfg: *c,
+        sched,
+        utf8: c[D_MODE] == 1,
+        name,
+        comp,
+        chunk,
+        signers,
+        sign_text: c[D_STYP] == 2,
+        hash,
+        enc,
+        chunk_size,
+        pws,
+        keys,
+        armor: c[D_ARMOR],
+        cons: c[D_CONS],
+        sink: c[D_SINK],
+        set_sk: c[D_SK] == 2,
+        streaming: c[D_V1MODE] == 2,
+        seed,
+    }
+}
+
+const S2K_NAMES: [&str; 4] = ["", "salted", "iterated", "argon2"];
+const ARMOR_NAMES: [&str; 4] = ["off", "crc", "nocrc", "crc+headers"];
+const SINK_NAMES: [&str; 3] = ["vec", "writer-short", "file"];
+
+fn cfg_json(env: &Env, p: &Plan) -> Value {
+    let c = &p.cfg;
+    json!({
+        "src": SRC_NAMES[c[D_SRC] as usize],
+        "mode": if p.utf8 { "utf8" } else { "binary" },
+        "name_len": p.name.len(),
+        "comp": COMP_NAMES[c[D_COMP] as usize],
+        "partial_chunk": p.chunk,
+        "signers": p.signers.iter().map(|i| env.signers[*i].name.clone()).collect::<Vec<_>>(),
+        "sign_type": if p.sign_text { "text" } else { "binary" },
+        "hash": format!("{:?}", p.hash),
+        "enc": enc_name(c[D_ENC]),
+        "aead_chunk": if matches!(p.enc, Enc::V2(..)) { Some(p.chunk_size.as_byte_size()) } else { None },
+        "passwords": p.pws.iter().map(|(_, k)| S2K_NAMES[*k as usize]).collect::<Vec<_>>(),
+        "recipients": p.keys.iter().map(|(i, a)| format!("{}{}", env.recips[*i].name, if *a { "(anon)" } else { "" })).collect::<Vec<_>>(),
+        "armor": ARMOR_NAMES[p.armor as usize],
+        "consumer": CONS_NAMES[p.cons as usize],
+        "sink": SINK_NAMES[p.sink as usize],
+        "set_session_key": p.set_sk,
+        "seipdv1_streaming": p.streaming,
+        "data": c[D_DATA],
+        "seed": p.seed,
+        "vector": c.to_vec(),
+    })
+}
+
+// ------------------------------------------------------------------------------------------
+// payloads
+
+fn gen_payload(seed: u64, n: usize, utf8: bool, kind: u8) -> Vec<u8> {
+    let mut rng = ChaCha8Rng::seed_from_u64(seed ^ 0x5eed_c01);
+    if !utf8 {
+        let mut v = vec![0u8; n];
+        match kind {
+            0 => rng.fill_bytes(&mut v),
+            1 => {
+                // text-like with bare CR / LF / CRLF (exercises text signatures over binary literals)
+                const A: &[u8] = b"abcdefghij klmnop\r\n\n\rqrstuvwxyz";
+                let mut i = 0;
+                while i < n {
+                    let w = rng.next_u64().to_le_bytes();
+                    for b in w {
+                        if i < n {
+                            v[i] = A[b as usize % A.len()];
+                            i += 1;
+                        }
+                    }
+                }
+            }
+            _ => {
+                // highly compressible: a short motif repeated, a random byte now and then
+                let motif: Vec<u8> = (0..37).map(|_| rng.gen()).collect();
+                for (i, b) in v.iter_mut().enumerate() {
+                    *b = motif[i % 37];
+                }
+                let mut p = 0usize;
+                while p < n {
+                    v[p] = rng.gen();
+                    p += rng.gen_range(50..4000);
+                }
+            }
+        }
+        return v;
+    }
+    let mut v = Vec::with_capacity(n);
+    match kind {
+        0 => {
+            while v.len() < n {
+                let rem = n - v.len();
+                let r = rng.gen_range(0..32);
+                match r {
+                    0 | 1 if rem >= 2 => v.extend_from_slice(b"\r\n"),
+                    2 | 3 if rem >= 2 => v.extend_from_slice("é".as_bytes()),
+                    4 if rem >= 3 => v.extend_from_slice("€".as_bytes()),
+                    5 if rem >= 4 => v.extend_from_slice("😀".as_bytes()),
+                    _ => v.push(b'a' + (r as u8 % 26)),
+                }
+            }
+        }
+        1 => {
+            const LINE: &[u8] = "Zwölf Boxkämpfer jagen Viktor quer über den großen Sylter Deich.\r\n".as_bytes();
+            while v.len() + LINE.len() <= n {
+                v.extend_from_slice(LINE);
+            }
+            while v.len() < n {
+                v.push(b'.');
+            }
+        }
+        _ => v.resize(n, b'a'),
+    }
+    v
+}
+
+/// Makes a Utf8-mode payload non-conforming (guaranteed): returns a description
+fn spoil_utf8(v: &mut [u8], rng: &mut ChaCha8Rng, near: &[usize]) -> &'static str {
+    let n = v.len();
+    let pos = if !near.is_empty() && rng.gen_bool(0.7) {
+        let b = near[rng.gen_range(0..near.len())];
+        (b + rng.gen_range(0..5)).saturating_sub(2).min(n - 1)
+    } else {
+        rng.gen_range(0..n)
+    };
+    match rng.gen_range(0..3) {
+        0 => {
+            v[pos] = 0xFF;
+            "0xFF octet"
+        }
+        1 => {
+            v[pos] = b'\n';
+            if pos > 0 {
+                v[pos - 1] = b'x';
+            }
+            "bare LF"
+        }
+        _ => {
+            v[n - 1] = 0xC3;
+            "truncated multi-octet sequence at the end"
+        }
+    }
+}
+
+// ------------------------------------------------------------------------------------------
+// building a message with the library
+
+struct Built {
+    out: Vec<u8>,
+    session_key: Option<Vec<u8>>,
+}
+
+fn s2k_for(kind: u8, rng: &mut ChaCha8Rng) -> StringToKey {
+    match kind {
+        1 => {
+            let mut salt = [0u8; 8];
+            rng.fill_bytes(&mut salt);
+            StringToKey::Salted { hash_alg: HashAlgorithm::Sha256, salt }
+        }
+        2 => {
+            let h = [HashAlgorithm::Sha256, HashAlgorithm::Sha512, HashAlgorithm::Sha224][rng.gen_range(0..3)];
+            let count = rng.gen_range(0..24u8);
+            StringToKey::new_iterated(rng, h, count)
+        }
+        _ => StringToKey::new_argon2(rng, 1, 1, ARGON2_M_ENC),
+    }
+}
+
+/// encoded Argon2 memory exponent: 2^4 KiB (the minimum allowed for p = 1 is 3)
+const ARGON2_M_ENC: u8 = 4;
+
+fn armor_headers() -> pgp::armor::Headers {
+    let mut h = BTreeMap::new();
+    h.insert("Comment".to_string(), vec!["c01 round trip".to_string()]);
+    h.insert("Version".to_string(), vec!["mon 1".to_string()]);
+    h
+}
+
+fn file_path(env: &Env, tag: &str, name: &[u8]) -> PathBuf {
+    let n = String::from_utf8_lossy(name).to_string();
+    env.tmp.join(tag).join(n)
+}
+
+fn finish<R: Read, E: Encryption>(
+    b: MessageBuilder<'_, R, E>,
+    env: &Env,
+    p: &Plan,
+    rng: &mut ChaCha8Rng,
+) -> pgp::errors::Result<Vec<u8>> {
+    let headers = armor_headers();
+    let opts = match p.armor {
+        1 => Some(ArmorOptions { headers: None, include_checksum: true }),
+        2 => Some(ArmorOptions { headers: None, include_checksum: false }),
+        3 => Some(ArmorOptions { headers: Some(&headers), include_checksum: true }),
+        _ => None,
+    };
+    match (opts, p.sink) {
+        (None, 0) => b.to_vec(rng),
+        (Some(o), 0) => b.to_armored_string(rng, o).map(|s| s.into_bytes()),
+        (o, 1) => {
+            let w = SchedWriter::new(Sched::Random(p.seed, 300));
+            let h = w.handle();
+            match o {
+                None => b.to_writer(rng, w)?,
+                Some(o) => b.to_armored_writer(rng, o, w)?,
+            }
+            let v = h.borrow().clone();
+            Ok(v)
+        }
+        (o, _) => {
+            let path = env.tmp.join("out").join("msg.pgp");
+            let r = match o {
+                None => b.to_file(rng, &path),
+                Some(o) => b.to_armored_file(rng, &path, o),
+            };
+            let data = std::fs::read(&path);
+            let _ = std::fs::remove_file(&path);
+            r?;
+            data.map_err(|e| pgp::errors::Error::from(format!("harness: reading output file: {e}")))
+        }
+    }
+}
+
+fn configure_and_finish<'a, R: Read>(
+    mut b: MessageBuilder<'a, R, NoEncryption>,
+    env: &'a Env,
+    p: &Plan,
+) -> pgp::errors::Result<Built> {
+    let mut rng = ChaCha8Rng::seed_from_u64(p.seed);
+    if p.utf8 {
+        b.data_mode(DataMode::Utf8)?;
+    } else if p.seed % 2 == 0 {
+        b.data_mode(DataMode::Binary)?;
+    }
+    if let Some(c) = p.chunk {
+        b.partial_chunk_size(c)?;
+    }
+    if let Some(c) = p.comp {
+        b.compression(c);
+    }
+    if p.sign_text {
+        b.sign_text();
+    } else if p.seed % 3 == 0 {
+        b.sign_binary();
+    }
+    for (k, i) in p.signers.iter().enumerate() {
+        let key = &env.signers[*i].sk.primary_key;
+        if (p.seed >> 8) % 4 == k as u64 {
+            // caller-provided subpacket areas (same content as the default hashed area)
+            let hashed = vec![
+                Subpacket::regular(SubpacketData::IssuerFingerprint(key.fingerprint()))?,
+                Subpacket::regular(SubpacketData::SignatureCreationTime(Timestamp::now()))?,
+            ];
+            b.sign_with_subpackets(key, Password::empty(), p.hash, SubpacketConfig::UserDefined { hashed, unhashed: vec![] });
+        } else {
+            b.sign(key, Password::empty(), p.hash);
+        }
+    }
+    match p.enc {
+        Enc::None => {
+            let out = finish(b, env, p, &mut rng)?;
+            Ok(Built { out, session_key: None })
+        }
+        Enc::V1(alg) => {
+            let mut b = b.seipd_v1(&mut rng, alg);
+            if p.set_sk {
+                let mut sk = vec![0u8; alg.key_size()];
+                rng.fill_bytes(&mut sk);
+                b.set_session_key(sk.into())?;
+            }
+            for (pw, kind) in &p.pws {
+                let s2k = s2k_for(*kind, &mut rng);
+                b.encrypt_with_password(s2k, &Password::from(pw.as_str()))?;
+            }
+            for (k, anon) in &p.keys {
+                let r = &env.recips[*k];
+                match (r.primary, *anon) {
+                    (true, false) => b.encrypt_to_key(&mut rng, r.sk.primary_key.public_key())?,
+                    (true, true) => b.encrypt_to_key_anonymous(&mut rng, r.sk.primary_key.public_key())?,
+                    (false, false) => b.encrypt_to_key(&mut rng, &r.sk.secret_subkeys[0].public_key())?,
+                    (false, true) => b.encrypt_to_key_anonymous(&mut rng, &r.sk.secret_subkeys[0].public_key())?,
+                };
+            }
+            let sk = b.session_key().as_ref().to_vec();
+            let out = finish(b, env, p, &mut rng)?;
+            Ok(Built { out, session_key: Some(sk) })
+        }
+        Enc::V2(alg, aead) => {
+            let mut b = b.seipd_v2(&mut rng, alg, aead, p.chunk_size);
+            if p.set_sk {
+                let mut sk = vec![0u8; alg.key_size()];
+                rng.fill_bytes(&mut sk);
+                b.set_session_key(sk.into())?;
+            }
+            for (pw, kind) in &p.pws {
+                let s2k = s2k_for(*kind, &mut rng);
+                b.encrypt_with_password(&mut rng, s2k, &Password::from(pw.as_str()))?;
+            }
+            for (k, anon) in &p.keys {
+                let r = &env.recips[*k];
+                match (r.primary, *anon) {
+                    (true, false) => b.encrypt_to_key(&mut rng, r.sk.primary_key.public_key())?,
+                    (true, true) => b.encrypt_to_key_anonymous(&mut rng, r.sk.primary_key.public_key())?,
+                    (false, false) => b.encrypt_to_key(&mut rng, &r.sk.secret_subkeys[0].public_key())?,
+                    (false, true) => b.encrypt_to_key_anonymous(&mut rng, &r.sk.secret_subkeys[0].public_key())?,
+                };
+            }
+            let sk = b.session_key().as_ref().to_vec();
+            let out = finish(b, env, p, &mut rng)?;
+            Ok(Built { out, session_key: Some(sk) })
+        }
+    }
+}
+
+fn build(env: &Env, p: &Plan, payload: &[u8]) -> pgp::errors::Result<Built> {
+    match (&p.sched, p.cfg[D_SRC]) {
+        (Some(s), _) => {
+            let rd = SchedReader::new(payload.to_vec(), s.clone());
+            configure_and_finish(MessageBuilder::from_reader(p.name.clone(), rd), env, p)
+        }
+        (None, 1) => {
+            let path = file_path(env, "in", &p.name);
+            if let Some(d) = path.parent() {
+                let _ = std::fs::create_dir_all(d);
+            }
+            std::fs::write(&path, payload)
+                .map_err(|e| pgp::errors::Error::from(format!("harness: writing input file: {e}")))?;
+            let r = configure_and_finish(MessageBuilder::from_file(&path), env, p);
+            let _ = std::fs::remove_file(&path);
+            r
+        }
+        _ => configure_and_finish(MessageBuilder::from_bytes(p.name.clone(), payload.to_vec()), env, p),
+    }
+}
+
+/// Length of the stream that the encryption layer consumes (= output of the same configuration
+/// without encryption and armor). None if the builder refuses.
+fn inner_len(env: &Env, p: &Plan, payload: &[u8]) -> Option<usize> {
+    let mut q = p.clone();
+    q.enc = Enc::None;
+    q.pws.clear();
+    q.keys.clear();
+    q.armor = 0;
+    q.sink = 0;
+    if q.sched.is_some() {
+        q.sched = Some(Sched::All);
+    } else {
+        q.cfg[D_SRC] = 0;
+    }
+    build(env, &q, payload).ok().map(|b| b.out.len())
+}
+
+// ------------------------------------------------------------------------------------------
+// independent reference: open the emitted packets without the library
+
+struct RefLit {
+    mode: u8,
+    name: Vec<u8>,
+    date: u32,
+    data: Vec<u8>,
+    n_ops: usize,
+    n_sig: usize,
+    /// body length of the outermost compressed packet, if any
+    compressed_body: Option<usize>,
+    /// compression algorithms met from the outside in
+    comp_algs: Vec<u8>,
+}
+
+enum RefErr {
+    /// the reference cannot judge (bzip2)
+    Skip(&'static str),
+    Bad(String),
+}
+
+fn ref_open_plain(stream: &[u8], depth: usize) -> Result<RefLit, RefErr> {
+    let pkts = rfc::frame::deframe(stream).map_err(|e| RefErr::Bad(format!("deframe: {e}")))?;
+    rfc::frame::check_written(&pkts).map_err(|e| RefErr::Bad(format!("written form: {e}")))?;
+    if pkts.len() == 1 && pkts[0].tag == 8 {
+        if depth > 3 {
+            return Err(RefErr::Bad("compression nested too deep".into()));
+        }
+        let body = &pkts[0].body;
+        if body.is_empty() {
+            return Err(RefErr::Bad("empty compressed packet".into()));
+        }
+        let inner: Vec<u8> = match body[0] {
+            0 => body[1..].to_vec(),
+            1 => {
+                let mut v = vec![];
+                flate2::read::DeflateDecoder::new(&body[1..])
+                    .read_to_end(&mut v)
+                    .map_err(|e| RefErr::Bad(format!("inflate: {e}")))?;
+                v
+            }
+            2 => {
+                let mut v = vec![];
+                flate2::read::ZlibDecoder::new(&body[1..])
+                    .read_to_end(&mut v)
+                    .map_err(|e| RefErr::Bad(format!("zlib: {e}")))?;
+                v
+            }
+            3 => return Err(RefErr::Skip("bzip2")),
+            a => return Err(RefErr::Bad(format!("compression algorithm {a}"))),
+        };
+        let mut r = ref_open_plain(&inner, depth + 1)?;
+        if depth == 0 || r.compressed_body.is_none() {
+            r.compressed_body = Some(body.len());
+        }
+        r.comp_algs.insert(0, body[0]);
+        return Ok(r);
+    }
+    let mut i = 0;
+    let mut n_ops = 0;
+    while i < pkts.len() && pkts[i].tag == 4 {
+        n_ops += 1;
+        i += 1;
+    }
+    if i >= pkts.len() || pkts[i].tag != 11 {
+        return Err(RefErr::Bad(format!(
+            "expected literal packet after {n_ops} OPS, tags are {:?}",
+            pkts.iter().map(|p| p.tag).collect::<Vec<_>>()
+        )));
+    }
+    let lit = &pkts[i].body;
+    i += 1;
+    let mut n_sig = 0;
+    while i < pkts.len() && pkts[i].tag == 2 {
+        n_sig += 1;
+        i += 1;
+    }
+    if i != pkts.len() {
+        return Err(RefErr::Bad(format!("trailing packets, tags are {:?}", pkts.iter().map(|p| p.tag).collect::<Vec<_>>())));
+    }
+    if lit.len() < 6 || lit.len() < 6 + lit[1] as usize {
+        return Err(RefErr::Bad("literal packet shorter than its header".into()));
+    }
+    let nl = lit[1] as usize;
+    Ok(RefLit {
+        mode: lit[0],
+        name: lit[2..2 + nl].to_vec(),
+        date: u32::from_be_bytes([lit[2 + nl], lit[3 + nl], lit[4 + nl], lit[5 + nl]]),
+        data: lit[6 + nl..].to_vec(),
+        n_ops,
+        n_sig,
+        compressed_body: None,
+        comp_algs: vec![],
+    })
+}
+
+struct RefOpened {
+    lit: Result<RefLit, RefErr>,
+    /// inner (plaintext) stream length of the encryption container
+    inner_len: Option<usize>,
+    seipd_body_len: Option<usize>,
+    skesk_bodies: Vec<Vec<u8>>,
+}
+
+fn sym_id(a: SymmetricKeyAlgorithm) -> u8 {
+    u8::from(a)
+}
+
+fn ref_open(bin: &[u8], p: &Plan, sk: Option<&[u8]>) -> Result<RefOpened, String> {
+    if p.enc == Enc::None {
+        return Ok(RefOpened { lit: ref_open_plain(bin, 0), inner_len: None, seipd_body_len: None, skesk_bodies: vec![] });
+    }
+    let pkts = rfc::frame::deframe(bin).map_err(|e| format!("deframe: {e}"))?;
+    rfc::frame::check_written(&pkts).map_err(|e| format!("written form: {e}"))?;
+    let tags: Vec<u8> = pkts.iter().map(|p| p.tag).collect();
+    let mut want = vec![3u8; p.pws.len()];
+    want.extend(vec![1u8; p.keys.len()]);
+    want.push(18);
+    if tags != want {
+        return Err(format!("packet sequence {tags:?}, expected {want:?}"));
+    }
+    let skesk_bodies: Vec<Vec<u8>> = pkts.iter().filter(|p| p.tag == 3).map(|p| p.body.clone()).collect();
+    let body = &pkts.last().unwrap().body;
+    let sk = sk.ok_or("no session key known")?;
+    let inner = match p.enc {
+        Enc::V1(alg) => {
+            if body.first() != Some(&1) {
+                return Err(format!("SEIPD version octet {:?}, expected 1", body.first()));
+            }
+            rfc::sym::seipd_v1_decrypt(sym_id(alg), sk, &body[1..]).map_err(|e| format!("SEIPDv1 reference decryption: {e:?}"))?
+        }
+        Enc::V2(alg, aead) => {
+            if body.len() < 4 || body[0] != 2 || body[1] != sym_id(alg) || body[2] != u8::from(aead) || body[3] != u8::from(p.chunk_size) {
+                return Err(format!(
+                    "SEIPDv2 header {:?}, expected [2, {}, {}, {}]",
+                    &body[..body.len().min(4)],
+                    sym_id(alg),
+                    u8::from(aead),
+                    u8::from(p.chunk_size)
+                ));
+            }
+            rfc::sym::seipd_v2_decrypt(body, sk).map_err(|e| format!("SEIPDv2 reference decryption: {e:?}"))?
+        }
+        Enc::None => unreachable!(),
+    };
+    Ok(RefOpened {
+        lit: ref_open_plain(&inner, 0),
+        inner_len: Some(inner.len()),
+        seipd_body_len: Some(body.len()),
+        skesk_bodies,
+    })
+}
+
+// ------------------------------------------------------------------------------------------
+// the library's own reader
+
+#[derive(Clone, Debug)]
+enum Access {
+    Plain,
+    Password(usize),
+    Key(usize),
+    SessionKey,
+}
+
+impl Access {
+    fn class(&self) -> &'static str {
+        match self {
+            Access::Plain => "plain",
+            Access::Password(_) => "password",
+            Access::Key(_) => "key",
+            Access::SessionKey => "session-key",
+        }
+    }
+}
+
+/// A failed step of the round trip: (stable symptom, detail)
+type Fail = (String, String);
+
+struct ReadOk {
+    data_len: usize,
+}
+
+fn lib_roundtrip(env: &Env, p: &Plan, out: &[u8], payload: &[u8], sk: Option<&[u8]>, access: &Access, full_verify: bool, wire: Option<&(u8, Vec<u8>, u32)>) -> Result<ReadOk, Fail> {
+    let f = |s: &str, d: String| -> Fail { (s.to_string(), d) };
+    let mut msg = if p.armor > 0 {
+        let (m, headers) = Message::from_armor(out).map_err(|e| f("parse-error", format!("from_armor: {e}")))?;
+        let want = if p.armor == 3 { armor_headers() } else { BTreeMap::new() };
+        if headers != want {
+            return Err(f("armor-headers-changed", format!("headers {headers:?}, written {want:?}")));
+        }
+        m
+    } else {
+        Message::from_bytes(out).map_err(|e| f("parse-error", format!("from_bytes: {e}")))?
+    };
+    if msg.is_encrypted() != (p.enc != Enc::None) {
+        return Err(f("layer-mismatch", format!("is_encrypted() = {} for enc {:?}", msg.is_encrypted(), p.enc)));
+    }
+    if p.enc != Enc::None {
+        let opts = if p.streaming {
+            DecryptionOptions::new().set_seipdv1_read_mode(Seipdv1ReadMode::Streaming)
+        } else {
+            DecryptionOptions::new()
+        };
+        let psk = || match p.enc {
+            Enc::V1(alg) => PlainSessionKey::V3_4 { sym_alg: alg, key: sk.unwrap_or(&[]).into() },
+            _ => PlainSessionKey::V6 { key: sk.unwrap_or(&[]).into() },
+        };
+        let sym = format!("decrypt-error/{}", access.class());
+        let empty = Password::empty();
+        msg = match access {
+            Access::Plain => unreachable!(),
+            Access::Password(i) => {
+                let pw = Password::from(p.pws[*i].0.as_str());
+                if p.streaming {
+                    let ring = TheRing { message_password: vec![&pw], decrypt_options: opts, ..Default::default() };
+                    msg.decrypt_the_ring(ring, true).map(|r| r.0)
+                } else {
+                    msg.decrypt_with_password(&pw)
+                }
+            }
+            Access::Key(i) => {
+                let key = &env.recips[p.keys[*i].0].sk;
+                if p.streaming {
+                    let ring = TheRing { secret_keys: vec![key], key_passwords: vec![&empty], decrypt_options: opts, ..Default::default() };
+                    msg.decrypt_the_ring(ring, true).map(|r| r.0)
+                } else {
+                    msg.decrypt(&empty, key)
+                }
+            }
+            Access::SessionKey => {
+                if p.streaming {
+                    let ring = TheRing { session_keys: vec![psk()], decrypt_options: opts, ..Default::default() };
+                    msg.decrypt_the_ring(ring, true).map(|r| r.0)
+                } else {
+                    msg.decrypt_with_session_key(psk())
+                }
+            }
+        }
+        .map_err(|e| f(&sym, format!("{access:?}: {e}")))?;
+    }
+    if msg.is_compressed() != p.comp.is_some() {
+        return Err(f("layer-mismatch", format!("is_compressed() = {} for compression {:?}", msg.is_compressed(), p.comp)));
+    }
+    let mut rounds = 0;
+    while msg.is_compressed() {
+        msg = msg.decompress().map_err(|e| f("decompress-error", format!("{e}")))?;
+        rounds += 1;
+        if rounds > 4 {
+            return Err(f("layer-mismatch", "more than 4 compression layers".into()));
+        }
+    }
+    if msg.is_signed() != !p.signers.is_empty() {
+        return Err(f("layer-mismatch", format!("is_signed() = {} for {} signers", msg.is_signed(), p.signers.len())));
+    }
+    if p.signers.is_empty() && !msg.is_literal() {
+        return Err(f("layer-mismatch", "innermost message is not a literal".into()));
+    }
+    let check_header = |msg: &Message<'_>, when: &str| -> Result<(), Fail> {
+        let Some(h) = msg.literal_data_header() else {
+            return Err(f("header-missing", format!("literal_data_header() is None {when}")));
+        };
+        let want_mode = if p.utf8 { DataMode::Utf8 } else { DataMode::Binary };
+        if h.mode() != want_mode {
+            return Err(f("header-mode", format!("mode {:?} {when}, requested {:?}", h.mode(), want_mode)));
+        }
+        // the builder does not carry the file name (it writes an empty name; the repository's
+        // tests pin this): the name read back must be what was requested or empty
+        if !h.file_name().is_empty() && h.file_name().as_ref() != &p.name[..] {
+            return Err(f("header-name", format!("file name {:?} {when}, requested {:?}", h.file_name(), String::from_utf8_lossy(&p.name))));
+        }
+        // the reader returns the header that is on the wire (as parsed by the reference)
+        if let Some((m, name, date)) = wire {
+            if u8::from(h.mode()) != *m || h.file_name().as_ref() != &name[..] || h.created().as_secs() != *date {
+                return Err(f(
+                    "header-differs-from-wire",
+                    format!("reader: mode {:?} name {:?} date {}; wire: mode {:?} name {:?} date {}", h.mode(), h.file_name(), h.created().as_secs(), *m as char, String::from_utf8_lossy(name), date),
+                ));
+            }
+        }
+        Ok(())
+    };
+    check_header(&msg, "before reading")?;
+    let data = match consumer(p.cons) {
+        None => msg.as_data_vec().map_err(|e| f("read-error", format!("as_data_vec: {e}")))?,
+        Some(pat) => {
+            let d = drain(&mut msg, &pat);
+            if let Some(e) = d.err {
+                return Err(f("read-error", format!("{pat:?} after {} of {} bytes: {e}", d.data.len(), payload.len())));
+            }
+            d.data
+        }
+    };
+    if data != payload {
+        let first = data.iter().zip(payload.iter()).position(|(a, b)| a != b);
+        let sym = if data.len() < payload.len() && first.is_none() {
+            "content/truncated"
+        } else if data.len() > payload.len() && first.is_none() {
+            "content/extended"
+        } else {
+            "content/differs"
+        };
+        return Err(f(sym, format!("read {} bytes, payload has {}; first difference at {:?}", data.len(), payload.len(), first)));
+    }
+    check_header(&msg, "after reading")?;
+    // reading on after the end stays at the end
+    let mut one = [0u8; 1];
+    match msg.read(&mut one) {
+        Ok(0) => {}
+        Ok(_) => return Err(f("content/extended", "read() after EOF returned data".into())),
+        Err(e) => return Err(f("read-error", format!("read() after EOF: {e}"))),
+    }
+    // signatures
+    let n = p.signers.len();
+    if n == 0 {
+        if msg.verify(&env.signers[0].pk.primary_key).is_ok() {
+            return Err(f("verify/unsigned-accepted", "verify() is Ok on an unsigned message".into()));
+        }
+    } else {
+        for (i, s) in p.signers.iter().enumerate() {
+            let sg = &env.signers[*s];
+            if let Err(e) = msg.verify_nested_explicit(i, &sg.pk.primary_key) {
+                return Err(f("verify/signer-rejected", format!("signature {i} of {n} ({}, {:?}, text={}): {e}", sg.name, p.hash, p.sign_text)));
+            }
+            if !full_verify {
+                continue;
+            }
+            if msg.verify_nested_explicit(i, &sg.other.primary_key).is_ok() {
+                return Err(f("verify/non-signer-accepted", format!("signature {i} verifies under a different key than {}", sg.name)));
+            }
+            if n > 1 {
+                let j = (i + 1) % n;
+                if msg.verify_nested_explicit(i, &env.signers[p.signers[j]].pk.primary_key).is_ok() {
+                    return Err(f("verify/non-signer-accepted", format!("signature {i} verifies under the key of signer {j}")));
+                }
+            }
+        }
+        if msg.verify_nested_explicit(n, &env.signers[p.signers[0]].pk.primary_key).is_ok() {
+            return Err(f("verify/extra-signature", format!("signature index {n} exists for {n} signers")));
+        }
+        if full_verify {
+            if let Err(e) = msg.verify(&env.signers[p.signers[0]].pk.primary_key) {
+                return Err(f("verify/signer-rejected", format!("verify() with the first signer: {e}")));
+            }
+            let mut keys: Vec<&dyn pgp::types::VerifyingKey> = vec![];
+            for s in &p.signers {
+                keys.push(&env.signers[*s].pk.primary_key);
+            }
+            keys.push(&env.signers[p.signers[0]].other.primary_key);
+            let res = msg.verify_nested(&keys).map_err(|e| f("verify/nested-error", format!("{e}")))?;
+            for (i, r) in res.iter().enumerate() {
+                let valid = matches!(r, VerificationResult::Valid(_));
+                if valid != (i < n) {
+                    return Err(f(
+                        if i < n { "verify/signer-rejected" } else { "verify/non-signer-accepted" },
+                        format!("verify_nested result {i} of {} is valid={valid}", res.len()),
+                    ));
+                }
+            }
+        }
+    }
+    Ok(ReadOk { data_len: data.len() })
+}
+
+/// `verify_read` (drain + verify in one call) on a fresh parse of an unencrypted signed message
+fn lib_verify_read(env: &Env, p: &Plan, out: &[u8]) -> Result<(), Fail> {
+    let f = |s: &str, d: String| -> Fail { (s.to_string(), d) };
+    let mut msg = if p.armor > 0 {
+        Message::from_armor(out).map_err(|e| f("parse-error", format!("from_armor: {e}")))?.0
+    } else {
+        Message::from_bytes(out).map_err(|e| f("parse-error", format!("from_bytes: {e}")))?
+    };
+    let mut rounds = 0;
+    while msg.is_compressed() && rounds < 4 {
+        msg = msg.decompress().map_err(|e| f("decompress-error", format!("{e}")))?;
+        rounds += 1;
+    }
+    let sg = &env.signers[p.signers[0]];
+    msg.verify_read(&sg.pk.primary_key)
+        .map(|_| ())
+        .map_err(|e| f("verify/signer-rejected", format!("verify_read with {}: {e}", sg.name)))?;
+    if msg.verify_read(&sg.other.primary_key).is_ok() {
+        return Err(f("verify/non-signer-accepted", "verify_read accepts a different key".into()));
+    }
+    Ok(())
+}
+
+// ------------------------------------------------------------------------------------------
+// size targets
+
+#[derive(Clone, Copy, Debug, Hash, PartialEq, Eq)]
+enum Layer {
+    /// payload length
+    P,
+    /// length of the stream fed to the encryption layer (OPS + literal/compressed packet + signatures)
+    I,
+    /// body length of the SEIPD packet (config octets + ciphertext + tags/MDC)
+    E,
+}
+
+#[derive(Clone, Debug, Hash, PartialEq, Eq)]
+struct Target {
+    layer: Layer,
+    /// 0 free size, 1 partial chunk size, 2 AEAD chunk size, 3 internal 8 KiB buffer
+    kind: u8,
+    block: u32,
+    k: u32,
+    d: i32,
+}
+
+impl Target {
+    fn free(n: usize) -> Self {
+        Target { layer: Layer::P, kind: 0, block: n as u32, k: 0, d: 0 }
+    }
+    fn value(&self) -> usize {
+        if self.kind == 0 {
+            self.block as usize
+        } else {
+            (self.k as i64 * self.block as i64 + self.d as i64).max(0) as usize
+        }
+    }
+    fn name(&self) -> String {
+        if self.kind == 0 {
+            format!("size={}", self.block)
+        } else {
+            format!(
+                "{:?}:{}{}={}*{}{:+}",
+                self.layer,
+                ["", "partial", "aead", "buf"][self.kind as usize],
+                self.block,
+                self.k,
+                self.block,
+                self.d
+            )
+        }
+    }
+}
+
+const DMIN: i32 = -38; // -(largest header 36 + 2)
+const DMAX: i32 = 2;
+
+fn targets(quick: bool) -> Vec<Target> {
+    let mut v = vec![];
+    let partial: &[u32] = if quick { &[512, 1024, 2048, 4096] } else { &[512, 1024, 2048, 4096, 8192, 65536, 1 << 20] };
+    let aead: &[u32] = if quick { &[64, 128, 256, 512, 1024, 4096] } else { &[64, 128, 256, 512, 1024, 2048, 4096, 8192, 16384, 65536] };
+    let sweep = |layer: Layer, kind: u8, block: u32, v: &mut Vec<Target>| {
+        let big = block >= 65536;
+        for k in 1..=4u32 {
+            // the framing octets of a partial compressed packet come on top of the chunk edge
+            let dmax = if layer == Layer::I && kind == 1 { DMAX + 6 } else { DMAX };
+            for d in DMIN..=dmax {
+                if big && !(d >= -1 && d <= 1 || d == -6 || d == -7 || d == -22 || d == -36 || d == -37 || d == -16 || d == -18) {
+                    continue;
+                }
+                v.push(Target { layer, kind, block, k, d });
+            }
+        }
+    };
+    for b in partial {
+        sweep(Layer::P, 1, *b, &mut v);
+        sweep(Layer::I, 1, *b, &mut v);
+        sweep(Layer::E, 1, *b, &mut v);
+    }
+    for b in aead {
+        sweep(Layer::I, 2, *b, &mut v);
+    }
+    for l in [Layer::P, Layer::I, Layer::E] {
+        sweep(l, 3, 8192, &mut v);
+    }
+    if !quick {
+        // very large AEAD chunks: only the immediate neighbourhood of one and two chunks
+        for b in [1u32 << 20, 1 << 22] {
+            for k in 1..=2 {
+                for d in [-1, 0, 1] {
+                    v.push(Target { layer: Layer::I, kind: 2, block: b, k, d });
+                }
+            }
+        }
+    }
+    v
+}
+
+/// Adapts a configuration so that the targeted chunker / buffer is really in the data path.
+fn apply_target(sp: &Space, c: &Cfg, t: &Target, rng: &mut ChaCha8Rng) -> Cfg {
+    let mut c = *c;
+    let chunk_idx = |b: u32| CHUNKS.iter().position(|x| *x == b).unwrap_or(0) as u8;
+    // exact placement on the inner layers needs a size-preserving compression layer
+    if t.layer != Layer::P && t.kind != 0 && c[D_COMP] >= 2 && rng.gen_bool(0.7) {
+        c[D_COMP] = rng.gen_range(0..2);
+    }
+    // the plain (unencrypted) path is one value of 21 in the array: give it more weight here
+    if (t.layer == Layer::P || t.kind == 1 && t.layer == Layer::I) && rng.gen_bool(0.3) {
+        c[D_ENC] = 0;
+    }
+    match (t.layer, t.kind) {
+        (Layer::P, 1) => {
+            c[D_CHUNK] = chunk_idx(t.block);
+            if c[D_SRC] < 2 {
+                c[D_SRC] = rng.gen_range(2..7);
+            }
+        }
+        (Layer::I, 1) => {
+            c[D_CHUNK] = chunk_idx(t.block);
+            if c[D_COMP] == 0 {
+                c[D_COMP] = 1;
+            }
+        }
+        (Layer::I, 2) => {
+            if !matches!(enc_of(c[D_ENC]), Enc::V2(..)) {
+                c[D_ENC] = rng.gen_range(12..21);
+            }
+            c[D_AEADCS] = (t.block.trailing_zeros() - 6 + 1) as u8;
+        }
+        (Layer::I, 3) => {
+            if !matches!(enc_of(c[D_ENC]), Enc::V1(..)) {
+                c[D_ENC] = rng.gen_range(1..12);
+            }
+        }
+        (Layer::E, 1) => {
+            c[D_CHUNK] = chunk_idx(t.block);
+            if c[D_ENC] == 0 {
+                c[D_ENC] = rng.gen_range(1..21);
+            }
+        }
+        (Layer::E, _) => {
+            if c[D_ENC] == 0 {
+                c[D_ENC] = rng.gen_range(1..21);
+            }
+        }
+        _ => {}
+    }
+    // large payloads: keep 1-byte source schedules and 1-byte consumers away (cost only)
+    if t.value() > 300_000 {
+        // the non-AES ciphers run at a few MB/s in the checked build profile
+        if matches!(c[D_ENC], 1..=4 | 8..=11) {
+            c[D_ENC] = 5 + (c[D_ENC] % 3);
+        }
+        if c[D_SRC] == 3 {
+            c[D_SRC] = 4;
+        }
+        if matches!(c[D_CONS], 2 | 6 | 7 | 9 | 3) {
+            c[D_CONS] = 4;
+        }
+    }
+    repair(sp, &mut c, rng);
+    c
+}
+
+/// Re-establishes the n/a conventions after controller dimensions were changed
+fn repair(sp: &Space, c: &mut Cfg, rng: &mut ChaCha8Rng) {
+    if enc_of(c[D_ENC]) == Enc::None {
+        c[D_NPW] = 0;
+        c[D_NKEY] = 0;
+    }
+    for d in 0..ND {
+        if !Space::na_dim(d) {
+            continue;
+        }
+        let rel = Space::relevant(c, d);
+        if !rel {
+            c[d] = 0;
+        } else if c[d] == 0 {
+            c[d] = rng.gen_range(1..sp.card[d]);
+        }
+    }
+    if c[D_NSIGN] > 0 {
+        let need = sp.signer_min_digest[c[D_SKEY] as usize - 1];
+        if HASHES[c[D_HASH] as usize - 1].1 < need {
+            let ok: Vec<u8> = (1..=HASHES.len() as u8).filter(|h| HASHES[*h as usize - 1].1 >= need).collect();
+            c[D_HASH] = ok[rng.gen_range(0..ok.len())];
+        }
+    }
+    debug_assert!(sp.valid(c));
+}
+
+fn block_size_of(alg: SymmetricKeyAlgorithm) -> usize {
+    alg.block_size()
+}
+
+/// inner stream length that gives a SEIPD body of `t` octets (nearest reachable one)
+fn inner_for_body(p: &Plan, t: usize) -> usize {
+    match p.enc {
+        Enc::V1(alg) => t.saturating_sub(1 + block_size_of(alg) + 2 + 22),
+        Enc::V2(..) => {
+            let cs = p.chunk_size.as_byte_size() as usize;
+            let avail = t.saturating_sub(36 + 16);
+            let mut m = avail / (cs + 16);
+            loop {
+                let i = avail.saturating_sub(16 * m);
+                let need = i.div_ceil(cs);
+                if need <= m || avail < 16 * (m + 1) {
+                    return i;
+                }
+                m += 1;
+            }
+        }
+        Enc::None => t,
+    }
+}
+
+/// Chooses the payload length that puts the targeted layer on its target value.
+fn solve_size(env: &Env, p: &Plan, t: &Target, kind: u8) -> (usize, u32) {
+    let tv = t.value();
+    if t.layer == Layer::P || t.kind == 0 {
+        return (tv, 0);
+    }
+    let mut tv = tv;
+    let mut probes = 0;
+    let mut n = 0;
+    for _round in 0..2 {
+        let want_inner = if t.layer == Layer::E { inner_for_body(p, tv) } else { tv };
+        n = want_inner.saturating_sub(64);
+        let mut unreachable = 0usize;
+        for _ in 0..3 {
+            let payload = gen_payload(p.seed, n, p.utf8, kind);
+            let Some(i) = inner_len(env, p, &payload) else { break };
+            probes += 1;
+            if i == want_inner {
+                break;
+            }
+            if n == 0 && i > want_inner {
+                unreachable = i - want_inner;
+                break;
+            }
+            let nn = (n as i64 + want_inner as i64 - i as i64).max(0) as usize;
+            if nn == n {
+                break;
+            }
+            n = nn;
+        }
+        if unreachable == 0 {
+            break;
+        }
+        // the layers around the payload are already longer than the target: move the target up
+        // by whole blocks, which keeps its position relative to the block edge
+        tv += (t.block as usize) * unreachable.div_ceil(t.block as usize);
+    }
+    (n, probes)
+}
+
+// ------------------------------------------------------------------------------------------
+// hook evaluation
+
+fn phase(e: &Ev) -> &'static str {
+    match (e.a, e.c, e.b) {
+        (1, 0, _) => "first-fixed",
+        (1, 1, _) => "first-partial",
+        (0, 1, _) => "mid-partial",
+        (0, 0, 0) => "final-zero",
+        _ => "final-fixed",
+    }
+}
+
+fn sum_b(ev: &[Ev], site: &str) -> u64 {
+    ev.iter().filter(|e| e.site == site).map(|e| e.b).sum()
+}
+
+// ------------------------------------------------------------------------------------------
+// one case
+
+struct CaseSpec {
+    plan: Plan,
+    target: Target,
+    /// make the payload non-conforming (Utf8 mode only): the builder must refuse
+    spoil: bool,
+    fam: &'static str,
+}
+
+fn run_case(ctx: &mut Ctx, env: &Env, cs: &CaseSpec) {
+    let p = &cs.plan;
+    let kind = p.cfg[D_DATA];
+    let t_case = crate::core::thread_cpu_s();
+    describe_case(&format!("C01 {} {} cfg={:?}", cs.fam, cs.target.name(), p.cfg));
+    let t0 = crate::core::thread_cpu_s();
+    let (n, probes) = solve_size(env, p, &cs.target, kind);
+    ctx.tally("cpu_us.solve", ((crate::core::thread_cpu_s() - t0) * 1e6) as u64);
+    ctx.evals_add(probes as u64);
+    let mut payload = gen_payload(p.seed, n, p.utf8, kind);
+    let mut spoiled = None;
+    if cs.spoil && p.utf8 && n > 0 {
+        let mut r = ChaCha8Rng::seed_from_u64(p.seed ^ 0x51);
+        let c = p.chunk.unwrap_or(1 << 19) as usize;
+        let near = [c - 6, c, 2 * c - 6, 8192, n.saturating_sub(1)];
+        let near: Vec<usize> = near.iter().copied().filter(|x| *x < n).collect();
+        spoiled = Some(spoil_utf8(&mut payload, &mut r, &near));
+    }
+    let replay = || {
+        json!({
+            "family": cs.fam,
+            "target": cs.target.name(),
+            "payload_len": n,
+            "payload": hexs(&payload),
+            "config": cfg_json(env, p),
+            "spoiled": spoiled,
+        })
+    };
+
+    // ---- build
+    let t0 = crate::core::thread_cpu_s();
+    let built = ctx.guarded("C01/build", replay, || hooks::record(|| build(env, p, &payload)));
+    ctx.tally("cpu_us.build", ((crate::core::thread_cpu_s() - t0) * 1e6) as u64);
+    ctx.eval();
+    let Some((built, bev)) = built else { return };
+    let built = match built {
+        Ok(b) => {
+            if let Some(why) = spoiled {
+                ctx.violation(
+                    "C01/build/accepts-nonconforming-utf8",
+                    format!("Utf8 literal with {why} was accepted by the builder ({} bytes)", n),
+                    replay(),
+                );
+                return;
+            }
+            b
+        }
+        Err(e) => {
+            if spoiled.is_some() {
+                ctx.tally("skipped.documented-reject.utf8", 1);
+            } else if e.to_string().starts_with("harness:") {
+                ctx.inconclusive(format!("temp file I/O failed: {e}"));
+            } else {
+                ctx.violation("C01/build/unexpected-error", format!("builder refused a valid input: {e}"), replay());
+            }
+            return;
+        }
+    };
+    let out = &built.out;
+    let sk = built.session_key.as_deref();
+
+    // ---- binary form through the reference de-armorer
+    let bin: Vec<u8> = if p.armor > 0 {
+        let parsed = std::str::from_utf8(out).map_err(|e| e.to_string()).and_then(rfc::armor::armor_parse_strict);
+        match parsed {
+            Ok(a) => {
+                let want_crc = p.armor != 2;
+                let crc_ok = match a.crc {
+                    Some(c) => want_crc && c == rfc::armor::crc24(&a.data),
+                    None => !want_crc,
+                };
+                let want_headers: Vec<(String, String)> = if p.armor == 3 {
+                    armor_headers().into_iter().map(|(k, v)| (k, v[0].clone())).collect()
+                } else {
+                    vec![]
+                };
+                if a.typ != "PGP MESSAGE" || !crc_ok || a.headers != want_headers || !a.rest.trim_end_matches('\n').is_empty() {
+                    ctx.violation(
+                        "C01/ref/armor-form",
+                        format!("armor type {:?} crc {:?} (wanted: {}) headers {:?} rest {:?}", a.typ, a.crc, want_crc, a.headers, a.rest),
+                        replay(),
+                    );
+                }
+                a.data
+            }
+            Err(e) => {
+                ctx.violation("C01/ref/armor-unparseable", format!("reference de-armorer: {e}"), replay());
+                return;
+            }
+        }
+    } else {
+        out.clone()
+    };
+
+    // ---- independent reference
+    let t0 = crate::core::thread_cpu_s();
+    let opened = match ref_open(&bin, p, sk) {
+        Ok(o) => Some(o),
+        Err(e) => {
+            ctx.violation("C01/ref/container", e, replay());
+            None
+        }
+    };
+    ctx.tally("cpu_us.ref", ((crate::core::thread_cpu_s() - t0) * 1e6) as u64);
+    let mut ref_judged = false;
+    if let Some(o) = &opened {
+        match &o.lit {
+            Ok(l) => {
+                ref_judged = true;
+                let want_mode = if p.utf8 { b'u' } else { b'b' };
+                let want_algs: Vec<u8> = p.comp.iter().map(|c| u8::from(*c)).collect();
+                if l.data != payload {
+                    ctx.violation(
+                        "C01/ref/literal-body",
+                        format!("literal body on the wire has {} bytes, payload {}", l.data.len(), payload.len()),
+                        replay(),
+                    );
+                } else if l.mode != want_mode || (!l.name.is_empty() && l.name != p.name) || l.n_ops != p.signers.len() || l.n_sig != p.signers.len() || l.comp_algs != want_algs {
+                    ctx.violation(
+                        "C01/ref/structure",
+                        format!(
+                            "wire: mode {:?} name {:?} date {} ops {} sigs {} compression {:?}; requested mode {:?} signers {} compression {:?}",
+                            l.mode as char,
+                            String::from_utf8_lossy(&l.name),
+                            l.date,
+                            l.n_ops,
+                            l.n_sig,
+                            l.comp_algs,
+                            want_mode as char,
+                            p.signers.len(),
+                            want_algs
+                        ),
+                        replay(),
+                    );
+                }
+                if l.name.is_empty() && !p.name.is_empty() {
+                    ctx.tally("note.file-name-not-emitted", 1);
+                }
+            }
+            Err(RefErr::Skip(w)) => ctx.tally(&format!("ref.skipped.{w}"), 1),
+            Err(RefErr::Bad(e)) => ctx.violation("C01/ref/plaintext-structure", e.clone(), replay()),
+        }
+    }
+    if ref_judged {
+        ctx.tally("ref.judged", 1);
+    }
+
+    // ---- hook invariants and coverage of the write side
+    // the library's event log keeps at most 2^20 events per recording (text-mode hashing of a
+    // 1-byte-read source emits one per octet and signer): a saturated log proves nothing
+    let saturated = bev.len() >= (1 << 20);
+    if saturated {
+        ctx.tally("hook.log-saturated", 1);
+    }
+    if hooks::available() && !saturated {
+        let lit: Vec<&Ev> = bev.iter().filter(|e| e.site == "lit.chunk").collect();
+        if p.sched.is_some() {
+            if sum_b(&bev, "lit.chunk") != payload.len() as u64 || lit.is_empty() {
+                ctx.violation(
+                    "C01/hook/lit-conservation",
+                    format!("literal chunker emitted {} body bytes in {} chunks for a payload of {}", sum_b(&bev, "lit.chunk"), lit.len(), payload.len()),
+                    replay(),
+                );
+            }
+        } else if !lit.is_empty() {
+            ctx.violation("C01/hook/lit-conservation", "partial literal generator used for a source of known length".to_string(), replay());
+        }
+        for site in ["lit.chunk", "cmp.chunk", "enc.chunk"] {
+            let evs: Vec<&Ev> = bev.iter().filter(|e| e.site == site).collect();
+            for (i, e) in evs.iter().enumerate() {
+                ctx.seen(&format!("hook.{}.phase", &site[..3]), phase(e));
+                let last = i + 1 == evs.len();
+                // exactly the last event is non-partial; only the first is flagged first
+                if (e.c == 0) != last || (e.a == 1) != (i == 0) {
+                    ctx.violation(
+                        format!("C01/hook/{}-sequence", &site[..3]),
+                        format!("chunk {i} of {}: first={} partial={} bytes={}", evs.len(), e.a, e.c, e.b),
+                        replay(),
+                    );
+                }
+            }
+        }
+        if let Some(o) = &opened {
+            if let (Some(il), Some(bl)) = (o.inner_len, o.seipd_body_len) {
+                let cfg_len = if matches!(p.enc, Enc::V2(..)) { 36 } else { 1 };
+                if sum_b(&bev, "enc.chunk") + cfg_len != bl as u64 {
+                    ctx.violation(
+                        "C01/hook/enc-conservation",
+                        format!("encrypt_write emitted {} bytes, SEIPD body on the wire has {} incl. {} config", sum_b(&bev, "enc.chunk"), bl, cfg_len),
+                        replay(),
+                    );
+                }
+                if let Enc::V2(..) = p.enc {
+                    let fin: Vec<&Ev> = bev.iter().filter(|e| e.site == "aead.enc.final").collect();
+                    let chunks: Vec<&Ev> = bev.iter().filter(|e| e.site == "aead.enc.chunk").collect();
+                    let s = sum_b(&bev, "aead.enc.chunk");
+                    let seq_ok = chunks.iter().enumerate().all(|(i, e)| e.a == i as u64);
+                    if fin.len() != 1 || fin[0].a != s || s != il as u64 || fin[0].b != chunks.len() as u64 || !seq_ok {
+                        ctx.violation(
+                            "C01/hook/aead-conservation",
+                            format!("AEAD encryptor: {} chunks sum {} final {:?}, reference inner length {}", chunks.len(), s, fin.first().map(|f| (f.a, f.b)), il),
+                            replay(),
+                        );
+                    }
+                    let csz = p.chunk_size.as_byte_size() as u64;
+                    let lastc = chunks.last().map(|e| e.b).unwrap_or(0);
+                    ctx.seen(
+                        "hook.aead.enc.last-chunk",
+                        if chunks.is_empty() { "none" } else if lastc == csz { "full" } else if lastc == 1 { "one" } else if lastc == csz - 1 { "full-1" } else { "other" },
+                    );
+                    ctx.seen("hook.aead.enc.chunks", match chunks.len() { 0 => "0", 1 => "1", 2 => "2", _ => "3+" });
+                }
+            }
+            if let Ok(l) = &o.lit {
+                if let Some(cb) = l.compressed_body {
+                    if sum_b(&bev, "cmp.chunk") + 1 != cb as u64 {
+                        ctx.violation(
+                            "C01/hook/cmp-conservation",
+                            format!("compressed chunker emitted {} bytes, packet body on the wire has {}", sum_b(&bev, "cmp.chunk"), cb),
+                            replay(),
+                        );
+                    }
+                }
+            }
+        }
+    }
+
+    // ---- target bookkeeping (measured)
+    if cs.target.kind != 0 {
+        let measured = match cs.target.layer {
+            Layer::P => Some(payload.len()),
+            Layer::I => opened.as_ref().and_then(|o| o.inner_len).or(if p.enc == Enc::None { Some(bin.len()) } else { None }),
+            Layer::E => opened.as_ref().and_then(|o| o.seipd_body_len),
+        };
+        if let Some(m) = measured {
+            // position relative to the nearest edge of the targeted block size
+            let b = cs.target.block as i64;
+            let mut off = (m as i64 - cs.target.value() as i64).rem_euclid(b);
+            if off > b / 2 {
+                off -= b;
+            }
+            let cls = if off == 0 { "exact" } else if off.abs() <= 4 { "within4" } else { "off" };
+            ctx.tally(&format!("target.{:?}.{cls}", cs.target.layer), 1);
+
+        }
+    }
+
+    // ---- the library's reader, through every way in
+    let mut accesses = vec![];
+    if p.enc == Enc::None {
+        accesses.push(Access::Plain);
+    } else {
+        let heavy = payload.len() > 200_000;
+        for i in 0..p.pws.len() {
+            if !heavy || i == 0 {
+                accesses.push(Access::Password(i));
+            }
+        }
+        for i in 0..p.keys.len() {
+            if !heavy || i == 0 {
+                accesses.push(Access::Key(i));
+            }
+        }
+        if accesses.is_empty() || (!heavy && p.seed % 3 == 0) {
+            accesses.push(Access::SessionKey);
+        }
+    }
+    let mut all_ok = true;
+    let wire: Option<(u8, Vec<u8>, u32)> = opened.as_ref().and_then(|o| o.lit.as_ref().ok()).map(|l| (l.mode, l.name.clone(), l.date));
+    let t0 = crate::core::thread_cpu_s();
+    for (ai, a) in accesses.iter().enumerate() {
+        let r = ctx.guarded("C01/read", replay, || hooks::record(|| lib_roundtrip(env, p, out, &payload, sk, a, ai == 0, wire.as_ref())));
+        ctx.eval();
+        let Some((r, rev)) = r else {
+            all_ok = false;
+            continue;
+        };
+        for e in &rev {
+            match e.site {
+                "aead.dec.chunk" => ctx.seen("hook.aead.dec.index", match e.a { 0 => "0", 1 => "1", _ => "2+" }),
+                "cfb.dec.avail" => ctx.seen(
+                    "hook.cfb.dec",
+                    match (e.a, e.c) {
+                        (0, _) => "checkfirst",
+                        (1, 0) => "streaming-more",
+                        (1, _) => "streaming-last",
+                        _ => "sed",
+                    },
+                ),
+                "body.new" => ctx.seen("hook.body.kind", match e.a { 0 => "fixed", 1 => "indeterminate", _ => "partial" }),
+                _ => {}
+            }
+        }
+        match r {
+            Ok(ok) => {
+                debug_assert_eq!(ok.data_len, payload.len());
+                ctx.tally(&format!("roundtrip.ok.{}", a.class()), 1);
+            }
+            Err((sym, detail)) => {
+                // v4 SKESK carries no integrity check: a wrong password opens another SKESK of
+                // the message to a plausible (algorithm, key) pair with probability ~2^-6 and the
+                // library then refuses the conflicting session keys. Inherent to the format.
+                if let (Access::Password(j), Enc::V1(_), Some(o)) = (a, p.enc, &opened) {
+                    if sym.starts_with("decrypt-error") {
+                        let pw = p.pws[*j].0.as_bytes();
+                        let ambiguous = o.skesk_bodies.iter().enumerate().any(|(i, b)| {
+                            i != *j
+                                && rfc::sym::skesk_v4_decrypt(b, pw)
+                                    .is_some_and(|(alg, key)| rfc::sym::key_size(alg) == Some(key.len()))
+                        });
+                        if ambiguous {
+                            ctx.tally("skipped.skesk-v4-wrong-password-plausible", 1);
+                            continue;
+                        }
+                    }
+                }
+                all_ok = false;
+                ctx.violation(format!("C01/roundtrip/{sym}"), format!("[{}] {detail}", a.class()), replay());
+            }
+        }
+    }
+
+    if p.enc == Enc::None && !p.signers.is_empty() {
+        let r = ctx.guarded("C01/read", replay, || lib_verify_read(env, p, out));
+        ctx.eval();
+        match r {
+            Some(Ok(())) => ctx.tally("roundtrip.ok.verify_read", 1),
+            Some(Err((sym, detail))) => {
+                all_ok = false;
+                ctx.violation(format!("C01/roundtrip/{sym}"), format!("[verify_read] {detail}"), replay());
+            }
+            None => all_ok = false,
+        }
+    }
+    ctx.tally("cpu_us.read", ((crate::core::thread_cpu_s() - t0) * 1e6) as u64);
+    let dt_case = crate::core::thread_cpu_s() - t_case;
+    if dt_case > 3.0 {
+        ctx.note(format!("slow case {:.1}s cpu: {} n={} {}", dt_case, cs.target.name(), n, cfg_json(env, p)));
+    }
+    // ---- accounting
+    let trivial = payload.is_empty() && p.comp.is_none() && p.signers.is_empty() && p.enc == Enc::None;
+    if !trivial {
+        ctx.cover(&(&cs.target, &p.cfg));
+    }
+    ctx.tally(&format!("cases.{}", cs.fam), 1);
+    if all_ok {
+        ctx.tally("cases.all-paths-ok", 1);
+    }
+    ctx.seen("sizes.class", match payload.len() { 0 => "0", 1..=3 => "1-3", 4..=511 => "<512", 512..=8191 => "<8Ki", 8192..=65535 => "<64Ki", 65536..=1048575 => "<1Mi", _ => ">=1Mi" });
+    if ctx.samples.len() < 4 && n > 0 && (ctx.case_id() / ctx.nshards) % 97 == 3 {
+        ctx.sample(json!({
+            "family": cs.fam, "target": cs.target.name(), "payload_len": n, "output_len": out.len(),
+            "config": cfg_json(env, p), "paths": accesses.iter().map(|a| a.class()).collect::<Vec<_>>(),
+            "payload_head": hex::encode(&payload[..payload.len().min(32)]),
+        }));
+    }
+}
+
+// ------------------------------------------------------------------------------------------
+// driver
 
 pub fn run(ctx: &mut Ctx) {
-    ctx.inconclusive("monitor not built yet");
+    let t00 = crate::core::thread_cpu_s();
+    let env = Env::new(ctx);
+    let quick = ctx.quick();
+    let sp = Space::new(quick, env.signers.len(), env.recips.len(), env.signers.iter().map(|s| s.min_digest).collect());
+    let mut prng = ctx.rng("pairs", 0);
+    let mut pairs = Pairs::new(&sp, &mut prng);
+    let rows = covering_array(&sp, &pairs, &mut prng);
+    let tg = targets(quick);
+    ctx.tally("cpu_us.setup", ((crate::core::thread_cpu_s() - t00) * 1e6) as u64);
+    if ctx.shard == 0 {
+        ctx.tally("array.rows", rows.len() as u64);
+        ctx.tally("targets", tg.len() as u64);
+    }
+
+    // slow public-key algorithms are rationed in the size sweep (not in the covering array)
+    let slow_signer: Vec<bool> = env.signers.iter().map(|s| s.slow).collect();
+    let slow_recip: Vec<bool> = env.recips.iter().map(|s| s.slow).collect();
+    let ration = |c: &mut Cfg, rng: &mut ChaCha8Rng, keep: f64| {
+        if c[D_NSIGN] > 0 && slow_signer[c[D_SKEY] as usize - 1] && !rng.gen_bool(keep) {
+            // Ed25519 v4 / v6, accept every hash of the table except SHA-224
+            c[D_SKEY] = 1 + rng.gen_range(0..3);
+            if c[D_HASH] == 6 {
+                c[D_HASH] = 1;
+            }
+        }
+        if c[D_NKEY] > 0 && slow_recip[c[D_PKALG] as usize - 1] && !rng.gen_bool(keep) {
+            c[D_PKALG] = 1 + rng.gen_range(0..3);
+        }
+        if c[D_NPW] > 0 && c[D_S2K] == 3 && !rng.gen_bool(keep) {
+            c[D_S2K] = 2;
+        }
+    };
+
+    let mut case_no = 0u64;
+    let mut do_case = |ctx: &mut Ctx, pairs: &mut Pairs, cfg: Cfg, target: Target, fam: &'static str, spoil: bool| {
+        let idx = case_no;
+        case_no += 1;
+        let gained = if spoil { 0 } else { pairs.mark(&sp, &cfg) };
+        if !ctx.mine() {
+            return;
+        }
+        ctx.tally("pairs.covered", gained as u64);
+        let mut rng = ctx.rng("plan", idx);
+        let plan = make_plan(&env, &cfg, &mut rng);
+        let cs = CaseSpec { plan, target, spoil, fam };
+        run_case(ctx, &env, &cs);
+    };
+
+    // ---- family A: the covering array itself, each row with a few sizes
+    let base_sizes: [usize; 16] = [0, 1, 2, 3, 100, 505, 506, 511, 512, 513, 1000, 4096, 8191, 8192, 8193, 20000];
+    let reps_a = ctx.qt(3usize, 8usize);
+    for (ri, row) in rows.iter().enumerate() {
+        for r in 0..reps_a {
+            let mut rng = ctx.rng("A", (ri * 64 + r) as u64);
+            let n = if r == reps_a - 1 { rng.gen_range(0..65536) } else { base_sizes[(ri * 5 + r * 7) % base_sizes.len()] };
+            do_case(ctx, &mut pairs, *row, Target::free(n), "array", false);
+        }
+    }
+
+    // ---- family B: boundary sweep, every target with several configurations of the array
+    let reps_b = ctx.qt(4usize, 40usize);
+    for (ti, t) in tg.iter().enumerate() {
+        let big = t.value() > 300_000;
+        let reps = if big { 2 } else if t.value() > 30_000 { reps_b.min(6) } else { reps_b };
+        for r in 0..reps {
+            let mut rng = ctx.rng("B", (ti * 64 + r) as u64);
+            let mut c = rows[(ti * reps_b + r * 131 + ti / 7) % rows.len()];
+            ration(&mut c, &mut rng, if big { 0.0 } else { 0.25 });
+            if big && c[D_COMP] == 4 {
+                c[D_COMP] = 2; // bzip2 of megabytes is slow; ZIP instead
+            }
+            let c = apply_target(&sp, &c, t, &mut rng);
+            do_case(ctx, &mut pairs, c, t.clone(), "sweep", false);
+        }
+    }
+
+    // ---- family C: random sizes
+    let nrand = ctx.qt(100usize, 600usize);
+    let reps_c = ctx.qt(3usize, 6usize);
+    for i in 0..nrand {
+        let mut rng = ctx.rng("C", i as u64);
+        let n = if !quick && i % 100 == 99 {
+            rng.gen_range(1 << 20..8 << 20)
+        } else if i % 10 == 9 {
+            rng.gen_range(65536..(if quick { 200_000 } else { 1 << 20 }))
+        } else {
+            rng.gen_range(0..65536)
+        };
+        let t = Target::free(n);
+        for r in 0..reps_c {
+            let mut c = rows[rng.gen_range(0..rows.len())];
+            ration(&mut c, &mut rng, 0.25);
+            if n > 300_000 && c[D_COMP] == 4 {
+                c[D_COMP] = 2;
+            }
+            let c = apply_target(&sp, &c, &t, &mut rng);
+            let _ = r;
+            do_case(ctx, &mut pairs, c, t.clone(), "random", false);
+        }
+    }
+
+    // ---- family D: Utf8 literals that must be refused (documented rejection), at boundaries
+    let nspoil = ctx.qt(150usize, 1500usize);
+    for i in 0..nspoil {
+        let mut rng = ctx.rng("D", i as u64);
+        let mut c = rows[rng.gen_range(0..rows.len())];
+        c[D_MODE] = 1;
+        c[D_DATA] = 0;
+        ration(&mut c, &mut rng, 0.0);
+        let t = if i % 2 == 0 { tg[rng.gen_range(0..tg.len())].clone() } else { Target::free(rng.gen_range(1..20000)) };
+        let t = if t.value() == 0 || t.value() > 100_000 { Target::free(777) } else { t };
+        let c = apply_target(&sp, &c, &t, &mut rng);
+        do_case(ctx, &mut pairs, c, t, "utf8-reject", true);
+    }
+
+    if ctx.shard == 0 {
+        ctx.tally("pairs.feasible", pairs.nfeasible as u64);
+        ctx.extra.insert(
+            "pairwise".into(),
+            json!({"dimensions": DIM_NAMES.to_vec(), "cardinalities": sp.card.to_vec(), "feasible_pairs": pairs.nfeasible,
+                   "pairs_planned_covered": pairs.ncovered, "array_rows": rows.len(), "size_targets": tg.len(), "cases_planned": case_no}),
+        );
+    }
+    let _ = std::fs::remove_dir_all(&env.tmp);
 }
